@@ -26,11 +26,19 @@ no header line the program did not ask for (CR/LF injection); no operation rejec
 tornado.application) that the model accepts.
 
 EITHER classes (only universal safety asserted): program-set Transfer-Encoding (`app_te`);
+If-None-Match matching an Etag header the program set itself on a 200 GET/HEAD response that was not
+flushed early (`own_etag_match`): the normal response or the bodiless 304 substitution are both accepted
+(where Tornado computes the ETag itself the substitution stays required);
 1xx/204 with a program-set non-zero Content-Length (torn down by the length guard or sent as is,
 `bodyless_cl_guard`);
 HEAD / manual 204,304,1xx combined with a program-set Content-Length that a GET would trip over
 (`cl_unverifiable`); reason phrases containing CTLs or '<' (reason not compared, `unsafe_reason`);
 a 1xx status chosen as *final* status (counted as the response to the request, `final_1xx`).
+
+Corrections: the model used to require status 200 when If-None-Match matched a program-set Etag (the
+  current tree only checks ETags it computed).  The statement allows "the 304 Tornado substitutes on an
+  ETag match" for any ETag, so this is now an EITHER class (found by a property-preserving change that
+  extends the check to program-set ETags; the check flagged it as C02.status).
 
 Findings on the current tree (open, see known_findings.d/C02.json + findings_inbox/C02-*.md):
   F4  HTTP/1.0 keep-alive + flush before finish: close-delimited body, Keep-Alive ack, connection open;
@@ -317,8 +325,10 @@ def second_ok(ctx, rest, closed, info):
 def run_case(ctx, case):
     method, version, conn, prog = case["method"], case["version"], case["conn"], case["prog"]
     dry = rm.predict(prog, method, None)
-    inm = inm_header(case["inm"], dry.auto_etag)
+    inm = inm_header(case["inm"], dry.auto_etag or dry.own_etag)
     exp = rm.predict(prog, method, inm)
+    # EITHER: If-None-Match matches an Etag the program set itself -> normal response or the 304 substitution
+    alt = rm.predict(prog, method, inm, own_etag_304=True) if "own_etag_match" in exp.labels else None
     extra = [("If-None-Match", inm)] if inm is not None else []
     req = rm.build_request(method, version, conn, extra, case["post_body"] if method == "POST" else None)
     credit = case.get("credit")
@@ -338,6 +348,13 @@ def run_case(ctx, case):
     else:
         wire, closed, logs, _s = httpharness.roundtrip(app(), req + rm.SECOND_REQUEST, segments=case["segments"])
 
+    if alt is not None:
+        try:
+            observed_code = split_head(wire)[0]
+        except httpref.RefError:
+            observed_code = None
+        if observed_code == alt.status and alt.status != exp.status:
+            exp = alt
     http10_ka = version == "1.0" and (conn or "").lower() == "keep-alive"
     labels = {"method_" + method, "http" + version, "outcome_" + exp.outcome}
     if method == "HEAD":
@@ -355,6 +372,8 @@ def run_case(ctx, case):
         if exp.status is not None and not exp.bodyless_status and exp.status not in (200, 404, 500):
             labels.add("flush_unusual_body_status")
     labels |= exp.labels
+    if alt is not None:
+        labels.add("either_own_etag_304_taken" if exp is alt else "either_own_etag_304_not_taken")
     app_te = "transfer-encoding" in exp.touched
     if app_te:
         labels.add("app_te")
